@@ -88,3 +88,30 @@ def groups():
                         _gen_build('gen_sym.c', 'popSymbols', unwind=kr + 2, cdefs=[f'K_REG={kr}', f'K_TBL={kt}']), timeout=3600, tier=tier,
                         bounded=f'BOUNDED stand-in: <= 2 marks, <= {kr} registers in the routine being finished, tables of capacity {kt}, --unwind {kr + 2} --unwinding-assertions (its two loops live in a function whose locals cannot be named in loop contracts)'))
     return gs
+
+
+def _drv_build(which, fn, replace, enforce, loops=None):
+    import gendrv
+
+    def build(gw, rl):
+        n_layout, xlayout = genunit.gen_mirror(gw)
+        name, expected = gendrv.build_drv_unit(gw, rl, which)
+        rl.check(expected)
+        b = {'c_sources': [os.path.join(CONTRACTS, 'gen_drv.c')], 'cxx_sources': [os.path.join(gw, name)], 'cdefs': [],
+                'entry': 'h_' + fn, 'dropped': DROPPED_GEN, 'min_obligations': 10, 'cbmc_flags': ['--unwinding-assertions', '--no-malloc-may-fail'],
+                'replace': list(replace), 'enforce': [enforce]}
+        if loops:
+            b['loops_tpl'] = os.path.join(CONTRACTS, loops)
+        return b
+    return build
+
+
+def drv_groups():
+    DV = [f'w_dispatch{k}/c_dv_{k}' for k in ('Assign', 'Loop', 'While', 'Mark', 'Goto', 'If', 'Program')]
+    return [Group('gen_dispatchVoid', ['C01', 'C07', 'C02', 'C04', 'C08', 'C03'], 'dispatchVoid (Compiler/src/gen.cpp)', 'c_dispatchVoid_top',
+                  _drv_build('dispatchVoid', 'dispatchVoid_top', DV + ['w_dispatchVoid_rec/c_dv_rec', 'w_advanceLine/c_dv_advanceLine', 'w_removeTopPotBreak/c_dv_removeTopPotBreak'],
+                             'w_dispatchVoid/c_dispatchVoid_top'), timeout=900,
+                  note='every callee (the seven statement routines, advanceLine, removeTopPotBreak, the recursive calls) replaced by a contract that records its call in ghosts'),
+            Group('gen_gen_ast', ['C02', 'C01', 'C04'], 'gen_ast (Compiler/src/gen.cpp)', 'c_gen_ast',
+                  _drv_build('gen_ast', 'gen_ast', ['w_dispatchVoid/c_dv_root'], 'w_gen_ast/c_gen_ast', loops='gen_ast.loops.json.in'), timeout=1800, expect_loops=1,
+                  note='the forwarding loop is closed by a loop contract; dispatchVoid replaced by a recording contract')]
